@@ -104,13 +104,13 @@ def check_c11(c):
 
 def check_c14(c):
     generic(
-        c, "c14", ["Properties/C14.v"], ["Proofs/SpecProofs.v"],
+        c, "c14", ["Properties/C14.v"], ["Proofs/SpecProofs.v", "Proofs/SpecWriterProofs.v"],
         what_tie="every file the Go writer emits is judged by the extracted spec decoder (Model/SpecDecoder.v) against its source records; tie: model writer output byte-identical",
         rule=TABLE_RULE + "Each emitted file = one program; C07/C13 histories add every table written by Add and by compaction.",
         nontrivial=lambda cmd, args, impl: impl.startswith("ok:") and len(impl) > 400,
         assumptions=["the judge shares the byte / varint / key / record-field decoders with the reader model (codec layer), nothing of the block or table readers",
-                     "log update indices are not range-checked by the writer; the judge checks the range for refs"],
-        level="translation_validation")
+                     "log update indices are not range-checked by the writer; the judge checks the range for refs",
+                     "C14_wellformed: tables below 2^59 bytes when an object index is written (2^64 without); zlib round-trip hypothesis (satisfiable: stored-stream codec)"])
 
 def check_c03(c):
     generic(
